@@ -458,7 +458,7 @@ pub fn run(tier: Tier, seed: u64, replay: Option<&std::path::Path>) -> i32 {
         }
     }
     let (n_pure, n_hist) = match tier {
-        Tier::Quick => (40_000, 320),
+        Tier::Quick => (240_000, 1_600),
         Tier::Thorough => (2_000_000, 6_000),
     };
     let mut out = run_sharded("C12-pure", seed, n_pure, 2000, pure_strategy, check_pure);
